@@ -14,6 +14,8 @@ translator obligation, never a silent default):
                                     -> `submitLoopPy`; prologue / epilogue -> `arraysPy`, `resetsCursorFirst`,
                                     `gatherInSubmissionOrder`, `emptyBatchWhenNothingRead`
   * `_is_raw`, `concatenate`        -> `isRawPy`, `concatPy`, `concatArgsAligned`, `concatInListOrder`
+  * `_raw_dict_to_ak`               the loop over `raw_dict.items()`, its if / elif / else chain (the set literal taken from the source) and
+                                    the awkward constructors of every branch -> `recordDetectors`, `convertEntryPy`, `rawDictToAkPy`
 
 Cursor semantics used by the symbolic execution: a read of k bytes / a relative seek by k moves the position by k (Python clamps a
 *read* at the end of the file; every position the reader visits in a file that passes the assertions lies inside the file), integer
@@ -1024,12 +1026,199 @@ def concatPy (sel : List Nat) (perBatch : Nat) (sched : List Nat) (files : List 
     return text, {"is_raw_flag": flag, "arrays_call": {p: U(a) for p, a in got.items()}}
 
 
+# ------------------------------------------------------------------------------------------------ _raw_dict_to_ak
+AK_LIST = ("awkward.contents.ListOffsetArray", "ak.contents.ListOffsetArray")
+AK_REC = ("awkward.contents.RecordArray", "ak.contents.RecordArray")
+AK_NP = ("awkward.contents.NumpyArray", "ak.contents.NumpyArray")
+AK_INDEX = ("awkward.index.Index", "awkward.index.Index64", "ak.index.Index", "ak.index.Index64")
+
+
+class AkBranch:
+    """one branch of the chain: [a, b = <value>;] contents[<key>] = <awkward constructor expression>"""
+
+    def __init__(self, key, val, what):
+        self.key, self.val, self.what = key, val, what
+        self.kinds = {}            # python name -> "dict" | "array"
+
+    def use(self, name, kind):
+        if self.kinds.setdefault(name, kind) != kind:
+            raise Unsupported(f"{self.what}: `{name}` is used both as a dict of columns and as an array")
+
+    def seq(self, e):
+        """an expression denoting a Python list / array -> (lean text, element type "str" | "col" | "nat")"""
+        if isinstance(e, ast.Name):
+            if e.id not in self.names:
+                raise Unsupported(f"{self.what}: unknown name {e.id}")
+            self.use(e.id, "array")
+            return _ident(e.id), "nat"
+        if isinstance(e, ast.Call) and U(e.func) == "list" and len(e.args) == 1 and not e.keywords:
+            return self.seq(e.args[0])
+        if isinstance(e, ast.Call) and isinstance(e.func, ast.Attribute) and e.func.attr in ("keys", "values") and not e.args and not e.keywords \
+                and isinstance(e.func.value, ast.Name):
+            n = e.func.value.id
+            if n not in self.names:
+                raise Unsupported(f"{self.what}: unknown name {n}")
+            self.use(n, "dict")
+            return (f"{_ident(n)}.map Prod.fst", "str") if e.func.attr == "keys" else (f"{_ident(n)}.map Prod.snd", "col")
+        if isinstance(e, ast.Subscript) and isinstance(e.slice, ast.Slice):
+            t, ty = self.seq(e.value)
+            lo, hi, st = (None if x is None else _const_int(x) for x in (e.slice.lower, e.slice.upper, e.slice.step))
+            if any(x is not None and v is None for x, v in ((e.slice.lower, lo), (e.slice.upper, hi), (e.slice.step, st))):
+                raise Unsupported(f"{self.what}: slice `{U(e)}`")
+            if st == -1 and lo is None and hi is None:
+                return f"({t}).reverse", ty
+            if st in (None, 1) and hi is None and lo is not None and lo >= 0:
+                return f"({t}).drop {lo}", ty
+            if st in (None, 1) and lo is None and hi is not None and hi >= 0:
+                return f"({t}).take {hi}", ty
+            raise Unsupported(f"{self.what}: slice `{U(e)}`")
+        if isinstance(e, ast.ListComp):
+            if len(e.generators) != 1 or e.generators[0].ifs or e.generators[0].is_async or not isinstance(e.generators[0].target, ast.Name):
+                raise Unsupported(f"{self.what}: comprehension `{U(e)}`")
+            v = e.generators[0].target.id
+            if not (isinstance(e.elt, ast.Call) and U(e.elt.func) in AK_NP and [U(a) for a in e.elt.args] == [v] and not e.elt.keywords):
+                raise Unsupported(f"{self.what}: comprehension element `{U(e.elt)}` is not NumpyArray({v})")
+            t, ty = self.seq(e.generators[0].iter)
+            if ty != "col":
+                raise Unsupported(f"{self.what}: `{U(e)}` does not wrap the dict's columns")
+            return t, "col"
+        if isinstance(e, ast.Call) and U(e.func) in ("sorted", "set", "reversed", "frozenset"):
+            raise Unsupported(f"{self.what}: `{U(e)}`: not the dict's own order")
+        raise Unsupported(f"{self.what}: sequence expression `{U(e)}`")
+
+    def record(self, e):
+        if not (isinstance(e, ast.Call) and U(e.func) in AK_REC and len(e.args) == 2 and not e.keywords):
+            raise Unsupported(f"{self.what}: `{U(e)[:100]}` is not RecordArray(<contents>, <fields>)")
+        cont, ty_c = self.seq(e.args[0])
+        keys, ty_k = self.seq(e.args[1])
+        if ty_c != "col" or ty_k != "str":
+            raise Unsupported(f"{self.what}: RecordArray(`{U(e.args[0])}`, `{U(e.args[1])}`) is not (columns, names)")
+        return f"({keys}).zip ({cont})"
+
+    def top(self, e):
+        if isinstance(e, ast.Call) and U(e.func) in AK_REC:
+            return f"AkCol.record ({self.record(e)})"
+        if isinstance(e, ast.Call) and U(e.func) in AK_LIST and len(e.args) == 2 and not e.keywords:
+            idx, content = e.args
+            if not (isinstance(idx, ast.Call) and U(idx.func) in AK_INDEX and len(idx.args) == 1 and not idx.keywords):
+                raise Unsupported(f"{self.what}: offsets `{U(idx)}` are not wrapped as awkward.index.Index(…)")
+            o, ty = self.seq(idx.args[0])
+            if ty != "nat":
+                raise Unsupported(f"{self.what}: offsets `{U(idx.args[0])}`")
+            if isinstance(content, ast.Call) and U(content.func) in AK_REC:
+                return f"AkCol.jaggedRecords ({o}) ({self.record(content)})"
+            if isinstance(content, ast.Call) and U(content.func) in AK_NP and len(content.args) == 1 and not content.keywords:
+                d, ty = self.seq(content.args[0])
+                if ty != "nat":
+                    raise Unsupported(f"{self.what}: NumpyArray(`{U(content.args[0])}`)")
+                return f"AkCol.jaggedWords ({o}) ({d})"
+            raise Unsupported(f"{self.what}: list content `{U(content)[:100]}`")
+        raise Unsupported(f"{self.what}: `{U(e)[:100]}` is neither RecordArray(…) nor ListOffsetArray(Index(…), …)")
+
+    def translate(self, stmts):
+        unpack = None
+        if len(stmts) == 2:
+            u = stmts[0]
+            if not (isinstance(u, ast.Assign) and len(u.targets) == 1 and isinstance(u.targets[0], ast.Tuple) and len(u.targets[0].elts) == 2
+                    and all(isinstance(x, ast.Name) for x in u.targets[0].elts) and U(u.value) == self.val):
+                raise Unsupported(f"{self.what}: `{U(u)[:80]}` is not `a, b = {self.val}`")
+            unpack = [x.id for x in u.targets[0].elts]
+            if len(set(unpack)) != 2 or self.val in unpack or self.key in unpack:
+                raise Unsupported(f"{self.what}: `{U(u)}`")
+            stmts = stmts[1:]
+        if len(stmts) != 1 or not (isinstance(stmts[0], ast.Assign) and U(stmts[0].targets[0]) == f"contents[{self.key}]" and len(stmts[0].targets) == 1):
+            raise Unsupported(f"{self.what}: branch is not `[a, b = {self.val};] contents[{self.key}] = …`")
+        self.names = set(unpack) if unpack else {self.val}
+        text = self.top(stmts[0].value)
+        if unpack is None:
+            if self.kinds.get(self.val) != "dict":
+                raise Unsupported(f"{self.what}: `{self.val}` is used as an array without being unpacked into (offsets, data)")
+            pat = f".dict {_ident(self.val)}"
+        else:
+            a, b = unpack
+            if self.kinds.get(a) != "array":
+                raise Unsupported(f"{self.what}: the first component `{a}` is not used as the offsets array")
+            if b not in self.kinds:
+                raise Unsupported(f"{self.what}: the second component `{b}` is dropped")
+            pat = f".offsDict {_ident(a)} {_ident(b)}" if self.kinds[b] == "dict" else f".offsData {_ident(a)} {_ident(b)}"
+        return pat, text
+
+
+def translate_raw_dict_to_ak(tree):
+    fn = _fn(tree, "_raw_dict_to_ak")
+    if _params(fn)[0] != ["raw_dict"] or fn.decorator_list:
+        raise Unsupported("_raw_dict_to_ak signature")
+    b = _body(fn)
+    if len(b) != 3 or U(b[0]) != "contents = {}" or U(b[2]) != "return ak.Array(contents)":
+        raise Unsupported(f"_raw_dict_to_ak: expected `contents = {{}}`, one for-loop, `return ak.Array(contents)`; got {[U(x)[:40] for x in b]}")
+    loop = b[1]
+    if not (isinstance(loop, ast.For) and not loop.orelse and U(loop.iter) == "raw_dict.items()" and isinstance(loop.target, ast.Tuple)
+            and len(loop.target.elts) == 2 and all(isinstance(x, ast.Name) for x in loop.target.elts)):
+        raise Unsupported(f"_raw_dict_to_ak: loop header `for {U(loop.target)} in {U(loop.iter)}` is not `for k, v in raw_dict.items()`")
+    key, val = (x.id for x in loop.target.elts)
+    if len(loop.body) != 1 or not isinstance(loop.body[0], ast.If):
+        raise Unsupported("_raw_dict_to_ak: loop body is not a single if / elif / else chain")
+    for n in (x for st in loop.body for x in ast.walk(st)):
+        if isinstance(n, (ast.Break, ast.Continue, ast.Return)):
+            raise Unsupported("_raw_dict_to_ak: break / continue / return inside the loop")
+        if isinstance(n, ast.Name) and isinstance(n.ctx, ast.Store) and n.id in ("contents", "raw_dict", key):
+            raise Unsupported(f"_raw_dict_to_ak: {n.id} is re-assigned inside the loop")
+    chain, node, sets = [], loop.body[0], []
+    while True:
+        t = node.test
+        if isinstance(t, ast.Compare) and len(t.ops) == 1 and isinstance(t.ops[0], ast.Eq) and U(t.left) == key and isinstance(t.comparators[0], ast.Constant) \
+                and isinstance(t.comparators[0].value, str):
+            cond = f'{_ident(key)} == "{_lean_str(t.comparators[0].value)}"'
+            label = t.comparators[0].value
+        elif isinstance(t, ast.Compare) and len(t.ops) == 1 and isinstance(t.ops[0], ast.In) and U(t.left) == key \
+                and isinstance(t.comparators[0], (ast.Set, ast.List, ast.Tuple)) \
+                and all(isinstance(x, ast.Constant) and isinstance(x.value, str) for x in t.comparators[0].elts):
+            names = sorted({x.value for x in t.comparators[0].elts})
+            sets.append(names)
+            cond = f"recordDetectors.contains {_ident(key)}"
+            label = "in " + ", ".join(names)
+        else:
+            raise Unsupported(f"_raw_dict_to_ak: condition `{U(t)}` is neither `{key} == \"<name>\"` nor `{key} in {{<names>}}`")
+        chain.append((cond, label, AkBranch(key, val, f"_raw_dict_to_ak[{label}]").translate(node.body)))
+        if len(node.orelse) == 1 and isinstance(node.orelse[0], ast.If):
+            node = node.orelse[0]
+            continue
+        if not node.orelse:
+            raise Unsupported("_raw_dict_to_ak: no else branch: other fields would be dropped")
+        chain.append((None, "else", AkBranch(key, val, "_raw_dict_to_ak[else]").translate(node.orelse)))
+        break
+    if len(sets) != 1:
+        raise Unsupported(f"_raw_dict_to_ak: expected exactly one `{key} in {{…}}` test, found {len(sets)}")
+    L = ["def recordDetectors : List String := [" + ", ".join(f'"{_lean_str(n)}"' for n in sets[0]) + "]", "",
+         "/-- the if / elif / else chain of the loop body: the layout built for one (name, value) pair -/",
+         f"def convertEntryPy ({_ident(key)} : String) ({_ident(val)} : RawVal) : Option AkCol :="]
+    for i, (cond, _, (pat, text)) in enumerate(chain):
+        head = "  " + ("else " if i else "") + (f"if {cond} then" if cond else "").strip()
+        if cond is None:
+            head = "  else"
+        L.append(head)
+        L.append(f"    (match {_ident(val)} with")
+        L.append(f"     | {pat} => some ({text})")
+        L.append("     | _ => none)")
+    L += ["", "/-- the loop over `raw_dict.items()` filling `contents` -/", f"def rawDictToAkPy (raw_dict : List (String × RawVal)) : Option (List (String × AkCol)) :=",
+          f"  raw_dict.foldlM (fun contents ({_ident(key)}, {_ident(val)}) =>",
+          f"    (convertEntryPy {_ident(key)} {_ident(val)}).map (fun col => dictSetPy contents {_ident(key)} col)) []"]
+    return "\n".join(L) + "\n", {"key": key, "value": val, "record_detectors": sets[0],
+                                  "branches": {label: {"shape": pat, "builds": text} for _, label, (pat, text) in chain}}
+
+
+def _lean_str(s: str) -> str:
+    if any(ord(c) < 32 or c in '"\\' for c in s):
+        raise Unsupported(f"string literal {s!r}")
+    return s
+
+
 # ------------------------------------------------------------------------------------------------ output
 HEADER = """-- GENERATED by tools/translate/rawpy.py from /repo/src/pybes3/besio/raw_io.py. Do not edit.
 import Pybes3Verif.Model.RawFile
 /-! The Python side of the raw-file reader (`raw_io.py`), translated from the source on every run: `_read` / `_skip`, the cursor
 program of `_preprocess_file` (executed symbolically over the byte position), the loop body and the loop of `_read_batch`, the batch
-loop / prologue / epilogue of `arrays`, `_is_raw` and `concatenate`.  `Props/RawPyTie.lean` proves these equal to the hand-written
+loop / prologue / epilogue of `arrays`, `_is_raw`, `concatenate` and `_raw_dict_to_ak`.  `Props/RawPyTie.lean` proves these equal to the hand-written
 models (`Model/RawFile.lean`, `Model/RawReader.lean`, `Model/RawConcat.lean`).
 Cursor semantics: a read of k bytes and a relative seek by k move the position by k; integer subtraction is `Nat` subtraction. -/
 namespace Pybes3Verif.Gen.RawPy
@@ -1047,6 +1236,7 @@ def generate(src: str, path: str | None = SRC_PATH) -> tuple[str, dict]:
     step, batch, i_rb = translate_read_batch(cls, io, flags)
     loop, arrays, i_arr = translate_arrays(cls, tree)
     concat, i_cc = translate_concat(tree, cls, io, flags)
+    toak, i_ak = translate_raw_dict_to_ak(tree)
     fold = ("((file.drop pos).take {k}).foldr (fun b acc => b + 256 * acc) 0" if io["order"] == "little"
             else "((file.drop pos).take {k}).foldl (fun acc b => 256 * acc + b) 0").format(k=io["word"])
     L = [HEADER]
@@ -1112,10 +1302,53 @@ def concatArgsAligned : Bool := true
 /-- `[str(Path(f).resolve()) for f in files if _is_raw(f)]`, `for i, f in enumerate(files)`, `ak.concatenate(res)` -/
 def concatInListOrder : Bool := true
 
+/-! ### `_raw_dict_to_ak` -/
+
+/-- what the C++ parser hands over under one key: a dict of columns, `(offsets, dict of columns)` or `(offsets, array)` -/
+inductive RawVal
+  | dict (cols : List (String × List Nat))
+  | offsDict (offsets : List Nat) (cols : List (String × List Nat))
+  | offsData (offsets : List Nat) (data : List Nat)
+  deriving DecidableEq, Repr
+
+/-- the awkward layouts `_raw_dict_to_ak` builds: `RecordArray([NumpyArray …], names)`,
+`ListOffsetArray(Index(offsets), RecordArray(…))`, `ListOffsetArray(Index(offsets), NumpyArray(data))`; a record is the list of
+(name, column) pairs `zip(names, contents)` -/
+inductive AkCol
+  | record (cols : List (String × List Nat))
+  | jaggedRecords (offsets : List Nat) (cols : List (String × List Nat))
+  | jaggedWords (offsets : List Nat) (data : List Nat)
+  deriving DecidableEq, Repr
+
+/-- `d[k] = v` on an insertion-ordered dict -/
+def dictSetPy {α : Type} (d : List (String × α)) (k : String) (v : α) : List (String × α) :=
+  if d.any (fun p => p.1 == k) then d.map (fun p => if p.1 == k then (k, v) else p) else d ++ [(k, v)]
+
+/-- `_raw_dict_to_ak`: the names of the `in {…}` test (sorted), the if / elif / else chain over the field name with the layout each
+branch builds (`none` = the value does not have the shape the branch unpacks / calls `.keys()` / `.values()` on: Python raises), and
+the loop `contents = {}; for name, data in raw_dict.items(): contents[name] = …; ak.Array(contents)`.  First the names: -/
+""")
+    L.append(toak)
+    L.append("""
+/-- per-event view: a list layout with offsets `o` has `len(o) - 1` entries, entry `i` being `content[o[i]:o[i+1]]` -/
+def slicePy {α : Type} (offsets : List Nat) (i : Nat) (data : List α) : List α :=
+  (data.drop (offsets.getD i 0)).take (offsets.getD (i + 1) 0 - offsets.getD i 0)
+
+def eventsOf : AkCol → List (List (String × List Nat))
+  | .record cols => (List.range ((cols.head?.map (·.2.length)).getD 0)).map (fun i => cols.map (fun c => (c.1, (c.2.drop i).take 1)))
+  | .jaggedRecords offsets cols => (List.range (offsets.length - 1)).map (fun i => cols.map (fun c => (c.1, slicePy offsets i c.2)))
+  | .jaggedWords offsets data => (List.range (offsets.length - 1)).map (fun i => [("", slicePy offsets i data)])
+
+/-- in the gather loop of `arrays`: `org_dict = future.result()`, then `convert_reid_to_teid(org_dict)` iff `decode_reid`, THEN
+`res.append(_raw_dict_to_ak(org_dict))` -/
+def rawDictToAkAfterReid : Bool := true
+/-- one `_raw_dict_to_ak` array per gathered batch, appended to `res` in list order, `return ak.concatenate(res)` -/
+def batchArraysConcatenatedInListOrder : Bool := true
+
 end Pybes3Verif.Gen.RawPy
 """)
     info = {"flags": {k: _hex(v) for k, v in flags.items()}, "flags_from": flags_from, "io": io, "preprocess": i_pre, "read_batch": i_rb,
-            "arrays": i_arr, "concatenate": i_cc}
+            "arrays": i_arr, "concatenate": i_cc, "raw_dict_to_ak": i_ak}
     return "".join(L), info
 
 
